@@ -56,8 +56,17 @@ RULES = [lambda x: not isinstance(x, str) or len(x) % 2 == 0, lambda x: not isin
          lambda x: False]
 
 
+_SUB = []
+
+
 def checker_for(k):
-    fc = impl.jsonschema.FormatChecker(formats=())
+    if k % 2 == 1:
+        # a user's subclass with a registry of its own: its instances are still independent objects
+        if not _SUB:
+            _SUB.append(type("OwnRegistryChecker", (impl.jsonschema.FormatChecker,), {"checkers": {}}))
+        fc = _SUB[0]()
+    else:
+        fc = impl.jsonschema.FormatChecker(formats=())
     fc.checks("vf")(RULES[k % 3])
     return fc
 
@@ -268,6 +277,10 @@ class C18(Prop):
         try:
             shared = {}
             vs = [build(case, k, shared) for k in range(n)]
+            for v in vs:
+                h = getattr(v, "_verif_handler", None)
+                if h is not None:
+                    h.delay = 0.002
 
             def work(k):
                 for _ in range(40):
